@@ -113,7 +113,13 @@ def run_bounded(chk):
                         break
     # spheropolyhedron: distance to the core <= r
     rng = np.random.default_rng(chk.seed)
-    for cname, pts in list(corpus.named_convex().items())[:6 if chk.tier == "quick" else 20]:
+    cores = list(corpus.named_convex().items())[:6 if chk.tier == "quick" else 20]
+    # sharp cores: narrow spikes (with a small facet cut near the apex) expose shortcuts that only look at one face
+    spike = [[0.0, 0, 0], [1.0, 0, 0], [0.4, 0.9, 0], [0.45, 0.3, 3.0]]
+    cut = spike[:3] + [[0.45 + 0.02, 0.3, 2.9], [0.45 - 0.02, 0.3 + 0.03, 2.9], [0.45, 0.3 - 0.03, 2.85], [0.45, 0.3, 2.97]]
+    wedge = [[0.0, 0, 0], [2.0, 0, 0], [0, 0.2, 0], [2.0, 0.2, 0], [0.0, 0.1, 1.5], [2.0, 0.1, 1.5]]
+    cores += [("spike", spike), ("chamfered_spike", cut), ("thin_wedge", wedge)]
+    for cname, pts in cores:
         v = np.asarray(pts, float) + np.array([3.0, -1.0, 2.0])
         faces = oracle.hull_facets(pts)
         size = float(np.ptp(v, axis=0).max())
@@ -122,6 +128,18 @@ def run_bounded(chk):
             sp_ = cox.shapes.ConvexSpheropolyhedron(v, r)
             c = v.mean(axis=0)
             Pq = c + rng.uniform(-1.6, 1.6, size=(300, 3)) * (np.ptp(v, axis=0) + 2 * r)
+            if r > 0:
+                # points just inside / outside the rounded vertices and edges: vertex + t * (direction away from the centre + noise)
+                extra = []
+                for vert in v:
+                    d0 = vert - c
+                    d0 /= np.linalg.norm(d0)
+                    for _ in range(12):
+                        u = d0 + 0.6 * rng.normal(size=3)
+                        u /= np.linalg.norm(u)
+                        for tt in (0.5, 0.93, 1.07):
+                            extra.append(vert + tt * r * u)
+                Pq = np.vstack([Pq, np.array(extra)])
             want = []
             keep = []
             for p in Pq:
